@@ -281,7 +281,7 @@ func (ig *ingest) newViewCreation(e *Effect) {
 	k := ig.k
 	ev := ig.a.NewEval(e, ig.r)
 	h, v, ppb, confs, block := ev.Arg(1), ev.Arg(2), ev.Arg(3), ev.Arg(4), ev.Arg(5)
-	pr := props("C09", "C07")
+	pr := props("C09", "C07", "C11")
 	// N1: confirmations = ExtractConfirmations(vcms), vcms = GetViewChangeMessages(h, v) whose senders passed the quorum
 	b := map[string]*Term{}
 	if !Match(Call("interfaces.ExtractConfirmationsFromViewChangeMessages", Ext(0, Call("interfaces.GetViewChangeMessages", k.ST, Var("h"), Var("v")))), confs, b) {
@@ -291,7 +291,7 @@ func (ig *ingest) newViewCreation(e *Effect) {
 	vcms := Ext(0, Call("interfaces.GetViewChangeMessages", k.ST, b["h"], b["v"]))
 	okKey := ev.Same(b["v"], v) && ev.Same(b["h"], h) && ev.Same(h, k.SHeight)
 	ev.Verdict("LK5", pr, "the NEW_VIEW embeds ExtractConfirmations(GetViewChangeMessages(h, v)) - exactly the stored votes of that view - for the current height", "", okKey, "votes of ("+PP(b["h"])+","+PP(b["v"])+") embedded in NEW_VIEW ("+PP(h)+","+PP(v)+")")
-	ev.Require("LK5.quorum", props("C09", "C07", "C01"), "a NEW_VIEW is signed only when the senders of exactly the embedded votes reach quorum weight", "",
+	ev.Require("LK5.quorum", props("C09", "C07", "C01", "C11"), "a NEW_VIEW is signed only when the senders of exactly the embedded votes reach quorum weight", "",
 		k.Quorum(T("map", "", vcms, mid(snd(bound)))), Truth(Ext(1, Call("interfaces.GetViewChangeMessages", k.ST, b["h"], b["v"]))))
 	ev.Require("S3.elected", props("C10", "C07"), "a NEW_VIEW (and its proposal) is signed only by the leader of that view, with the once-per-view latch set to it and the view entered", "",
 		Eq(Field(k.TIC, "latestViewThatProcessedVCMOrNVM"), v), Eq(k.SView, v))
